@@ -1171,3 +1171,60 @@ func c16AnonStructOnly(c *Ctx, rule string) {
 		c.bad(rule, relName(um), um.Pos(), "Unmangle never calls unmangleStruct")
 	}
 }
+
+// c16WrongErrorReturned: a contradiction check over the whole repository. A
+// return that sits in the failure branch of one error (`if errA != nil { ... }`)
+// but hands back another error value that is known to be nil on that very path
+// reports success for a detected failure (with a nil / zero value that the
+// caller then uses). The accepted idiom is returning the tested error, a
+// wrapped form of it, or a freshly built error.
+func c16WrongErrorReturned(c *Ctx, rule string) {
+	w := c.W
+	n, bad := 0, 0
+	for _, f := range w.Funcs {
+		if len(f.Blocks) == 0 {
+			continue
+		}
+		for _, r := range returnsOf(f) {
+			rv := retVals(r)
+			if len(rv) == 0 {
+				continue
+			}
+			e := rv[len(rv)-1]
+			if types.TypeString(e.Type(), nil) != "error" {
+				continue
+			}
+			if _, isConst := e.(*ssa.Const); isConst {
+				continue
+			}
+			// is the return inside the failure branch of some error value?
+			var tested ssa.Value
+			for _, ec := range condsDominating(r.Block()) {
+				x, nilWhenTrue, ok := nilCheckOf(ec.Cond)
+				if !ok || types.TypeString(x.Type(), nil) != "error" {
+					continue
+				}
+				if nilWhenTrue != ec.Val { // known non-nil here
+					// only the innermost failure branch matters: the one whose If block immediately controls r
+					if tested == nil {
+						tested = x
+					}
+				}
+			}
+			if tested == nil {
+				continue
+			}
+			n++
+			if sameValue(e, tested) {
+				continue
+			}
+			if knownNil(r.Block(), e, true) {
+				bad++
+				c.bad(rule, relName(f)+"#return", r.Pos(), "inside the failure branch of %s the function returns %s, which is known to be nil on this path: the failure is reported as success (the caller goes on with a nil/zero result)", canon(tested), canon(e))
+			}
+		}
+	}
+	if bad == 0 {
+		c.okRows(rule, "repo", 0, n, "none of the %d returns inside an error's failure branch hands back a different error that is known nil there", n)
+	}
+}
